@@ -631,6 +631,9 @@ func FuzzyMatchV2(caseSensitive bool, normalize bool, forward bool, input *util.
 			if j > int(F[i]) {
 				s2 = H[I+j0-1]
 			}
+			// C[i+1][j+1] is filled in only if F[i+1] <= j+1 <= lastIdx. Other
+			// cells of a reused slab hold values left over from earlier calls.
+			next := i+1 < M && j+1 >= int(F[i+1]) && j < lastIdx
 
 			if s > s1 && (s > s2 || s == s2 && preferMatch) {
 				*pos = append(*pos, j+minIdx)
@@ -639,7 +642,7 @@ func FuzzyMatchV2(caseSensitive bool, normalize bool, forward bool, input *util.
 				}
 				i--
 			}
-			preferMatch = C[I+j0] > 1 || I+width+j0+1 < len(C) && C[I+width+j0+1] > 0
+			preferMatch = C[I+j0] > 1 || next && C[I+width+j0+1] > 0
 			j--
 		}
 	}
